@@ -2,7 +2,7 @@
    parse_input_field_default_value, and of InputTypesGenerator._process_field_value (merge of alias and
    default into Field(...)).  Executable definitions only. *)
 From Coq Require Import List String Ascii ZArith Bool.
-From AC Require Import Base.Sexp Gql.InSchema.
+From AC Require Import Base.Sexp Base.Strs Gql.InSchema Model.Names.
 Import ListNotations.
 Local Open Scope string_scope.
 
@@ -22,6 +22,10 @@ Inductive pyexpr :=
 | PLambda (body : pyexpr)
 | PValidate (ty : string) (arg : pyexpr).
 
+(* enums.py: member name = value, with "_" appended when the value is a Python keyword; the default
+   expression refers to that member name (fix a742038) *)
+Definition member_name (v : string) : string := if iskeyword (s2l v) then v ++ "_" else v.
+
 Definition default_factory (body : pyexpr) : pyexpr := PField [("default_factory", PLambda body)].
 
 (* parse_input_const_value_node(node, field_type, nested_list, nested_object) *)
@@ -32,7 +36,7 @@ Fixpoint const_value_node (ft : string) (v : cvalue) (nested_list nested_object 
   | CStr s => PConst (PStr s)
   | CBool b => PConst (PBool b)
   | CNull => PConst PNone
-  | CEnum e => PName (ft ++ "." ++ e)
+  | CEnum e => PName (ft ++ "." ++ member_name e)
   | CList l =>
       let list_ := PList (map (fun x => const_value_node ft x true nested_object) l) in
       if nested_list then list_ else default_factory list_
@@ -41,8 +45,10 @@ Fixpoint const_value_node (ft : string) (v : cvalue) (nested_list nested_object 
       if nested_object then dict_ else default_factory (PValidate ft dict_)
   end.
 
-(* parse_input_field_default_value(node, annotation, field_type); the schema comes from SDL, so the
-   AST node is always present; ann_optional = "annotation is Optional[...]" *)
+(* parse_input_field_default_value(node, annotation, field_type, field); the schema comes from SDL, so the
+   AST node is always present and get_default_value_node(field) (introspection fallback, 4077122) yields
+   nothing new: without an SDL default the field's default_value is Undefined.
+   ann_optional = "annotation is Optional[...]" *)
 Definition field_default_value (default : option cvalue) (type_nonnull ann_optional : bool) (ft : string)
   : option pyexpr :=
   match default with
